@@ -600,6 +600,23 @@ def guarded_sites(ctx, r6, task_sites, completed, S):
         vals = sd.values_at(IN, keys, n, 'self.task_ex.state')
         r6.check(S['SUCCESS'] not in vals, ctx.construct(g, c),
                  '_run_existing can re-run a SUCCESS task', ctx.loc(g, c))
+        # the refusal has to roll the transaction back: the handlers of
+        # task_handler.run_task / continue_task turn every Mistral exception
+        # into force_fail_task(), which would move the SUCCESS task to ERROR
+        for x in cfg.nodes:
+            if x.kind == 'stmt' and isinstance(x.ast, ast.Raise) and \
+                    x.ast.exc is not None:
+                rv = sd.values_at(IN, keys, x, 'self.task_ex.state')
+                if rv and rv <= {S['SUCCESS']}:
+                    cls = dotted(x.ast.exc.func) if isinstance(
+                        x.ast.exc, ast.Call) else dotted(x.ast.exc)
+                    r6.check(not _mistral_exc(prog, g.module, cls),
+                             ctx.construct(g, x.ast, extra='escapes the '
+                                           'force-fail handler'),
+                             'the refusal to re-run a succeeded task raises '
+                             '%s, a Mistral exception: run_task catches it '
+                             'and force-fails the task, so the SUCCESS task '
+                             'becomes ERROR' % cls, ctx.loc(g, x.ast))
     # defer: an existing task found by unique key is only re-deferred when
     # it is not finished
     for g, c in site(TASK + '.defer'):
